@@ -35,6 +35,9 @@ spec fn cmd_respects(a: World, b: World) -> bool {
     &&& forall|p: Seq<char>| #![trigger b.dirs.contains(p)] a.targets.contains(p) && !a.dirs.contains(p) ==> !b.dirs.contains(p)
 }
 
+// error kinds by which `rename` reports that its source did not exist
+spec fn src_missing_kind(e: SystemError) -> bool { e is NotFound || e is RenameFromNonExistent }
+
 trait System : Sized
 {
     fn is_dir(&self, path: &str, Tracked(w): Tracked<&mut World>) -> (r: bool)
@@ -51,6 +54,10 @@ trait System : Sized
             r is Ok ==> old(w).files.contains_key(from@)
                 && final(w).files == old(w).files.remove(from@).insert(to@, old(w).files[from@]),
             r is Err ==> *final(w) == *old(w),
+            // the error kind tells whether the source existed (RealSystem: NotFound, FakeSystem: RenameFromNonExistent).
+            // On a real file system NotFound can also mean a missing destination directory; the contract is used for
+            // destinations whose parent exists (a target path, or the cache directory whose existence is checked first).
+            r matches Err(e) ==> (src_missing_kind(e) <==> !old(w).files.contains_key(from@)),
             // derived consequences of the three lines above and the precondition (lemma rename_keeps in
             // prelude/world.rs proves them; repeated here so that call sites need no hint)
             kept(*old(w), *final(w)), inv_cache(*old(w)) ==> inv_cache(*final(w)), mt(*old(w)) ==> mt(*final(w));
